@@ -174,6 +174,70 @@ theorem runChecks_std_warning (out : Val α) :
       obtain ⟨k, hk⟩ := ih w s hs hl' hb hst
       exact ⟨k, by rw [hk]; simp only [hs]⟩
 
+theorem runCheck_none (p : Policy) (x : Val α) (c : Check α) (s : St) (hs : s.ret = none) :
+    runCheck p x c s =
+      if violated c.kind c.lo c.hi x then
+        if c.physical then run c.onFail s
+        else match p with
+          | .strict => run c.onFail s
+          | .warning => run c.onWarn s
+          | .none => s
+      else s := by
+  simp only [runCheck, hs]
+  cases p <;> rfl
+
+/-- the state after a warning of rank `r` -/
+def warned (s : St) (r : Nat) : St :=
+  { s with status := 1, bounds := (r : Int), reports := s.reports + 1 }
+
+/-- the output is tested like an argument of rank `n+1`: physical bounds, then standard bounds -/
+theorem runChecks_output (p : Policy) (args : List (Val α)) (y : Val α) (v : Var α) (n : Nat) (s : St)
+    (hs : s.ret = none) (hv : valueOf args y (n + 1) = y) :
+    runChecks p args y (physChecks (n + 1) [v] ++ stdChecks (n + 1) [v]) s =
+      if optViolated v.phys y then failed s (n + 1)
+      else if optViolated v.std y then
+        match p with
+        | .strict => failed s (n + 1)
+        | .warning => warned s (n + 1)
+        | .none => s
+      else s := by
+  obtain ⟨ph, st⟩ := v
+  have hstd : runChecks p args y (stdChecks (n + 1) [⟨ph, st⟩]) s =
+      if optViolated st y then
+        match p with
+        | .strict => failed s (n + 1)
+        | .warning => warned s (n + 1)
+        | .none => s
+      else s := by
+    cases st with
+    | none => simp [stdChecks, runChecks, optViolated]
+    | some b =>
+      simp only [stdChecks, List.append_nil, runChecks]
+      rw [runCheck_none _ _ _ _ hs]
+      simp only [stdCheck, hv, optViolated, bndViolated]
+      by_cases hb : violated b.kind b.lo b.hi y = true
+      · simp only [hb, if_true, Bool.false_eq_true, if_false]
+        cases p
+        · rfl
+        · exact run_warnEffs _ s hs
+        · exact run_failEffs _ s hs
+      · simp only [hb, Bool.false_eq_true, if_false]
+  rw [runChecks_append]
+  cases ph with
+  | none =>
+    simp only [physChecks, List.append_nil, runChecks, optViolated, Bool.false_eq_true, if_false]
+    exact hstd
+  | some b =>
+    simp only [physChecks, List.append_nil, runChecks]
+    rw [runCheck_none _ _ _ _ hs]
+    simp only [physCheck, hv, optViolated, bndViolated]
+    by_cases hb : violated b.kind b.lo b.hi y = true
+    · simp only [hb, if_true]
+      rw [run_failEffs _ s hs]
+      exact runChecks_ret_some p args y _ _ .nan rfl
+    · simp only [hb, Bool.false_eq_true, if_false]
+      exact hstd
+
 /-- `_checkBounds`: the tests of a list of inputs -/
 theorem execC_phys :
     ∀ (vs : List (Var α)) (xs pre : List (Val α)) (rest : List (CCheck α)), vs.length = xs.length →
